@@ -95,5 +95,8 @@ Definition cand_trees (alts : list N) : list (list edge) :=
 
 Definition spt_decide_slow (alts : list N) (p : list (list N)) : bool :=
   existsb (spt_check alts p) (cand_trees alts).
+(* the reference decider runs the cheap vote test first: most candidates are rejected by the first vote *)
+Definition spt_checkr (alts : list N) (p : list (list N)) (T : list edge) : bool :=
+  forallb (vote_ok T) p && tree_check alts T.
 Definition spt_decide (alts : list N) (p : list (list N)) : bool :=
-  existsb (spt_checkf alts p) (cand_trees alts).
+  existsb (spt_checkr alts p) (cand_trees alts).
